@@ -21,10 +21,11 @@ RUN = 'action::bootstrap::TableBootstrapInner::run'
 B = 'action::bootstrap::TableBootstrapInner::'
 
 
-def run_sym(ctx, res, cache={}):
+def run_sym(ctx, res):
     b = ctx.co(RUN)
     res.touch(b)
-    k = id(ctx)
+    cache = ctx.__dict__.setdefault('_sym_cache', {})   # per analysed tree, never shared between trees
+    k = ('c15', RUN)
     if k not in cache:
         s = Sym(b, max_paths=400000, merge_loop_exits=True)
         s.run()
